@@ -12,7 +12,8 @@
 //!   server  (N 0|1)                                wait_close (N ms)
 //!   streams (L (L path (N kind) (N announced) (L chunk...))...)   handlers whose reply carries a future:
 //!            kind 0 = `kvarn::extensions::stream_body()` (the file public/<path>), kind 1 = `with_future` (no
-//!            length; the future writes the chunks), kind 2 = `with_future_and_len(.., announced)`
+//!            length; the future writes the chunks), kind 2 = `with_future_and_len(.., announced)`, kind 3 = `with_future`
+//!            and a `content-length: announced` header set by the handler itself
 //!   sndbuf  (N bytes) send buffer of the server's end of the connection (0 = the kernel's choice)
 //!   retry   (N 0|1)   run the scenario again (fresh host, up to 3 attempts) when the client ran into a time-out
 //! req      = (L method target (L (L name value)...) body (N early) (N flags))     flags bit 0: unknown Host,
@@ -97,11 +98,15 @@ fn customize(kv: &[(String, X)], host: &mut Host, shared: &Arc<c00pipe::Shared>)
                             }
                         }
                     });
-                    let resp = Response::builder()
+                    let mut resp = Response::builder()
                         .header("content-type", "text/plain")
                         .header("x-tag", "S")
                         .body(Bytes::new())
                         .unwrap();
+                    if *kind == 3 {
+                        // the handler frames its stream itself
+                        utils::set_content_length(resp.headers_mut(), *announced);
+                    }
                     let fat = FatResponse::new(resp, comprash::ServerCachePreference::None)
                         .with_compress(comprash::CompressPreference::None);
                     if *kind == 2 {
